@@ -104,8 +104,9 @@ func Process(t parser.TemplateFile) (parser.TemplateFile, error) {
 	if err := eg.Wait(); err != nil {
 		return t, err
 	}
-	// Delete unused imports.
-	for _, imp := range firstGoNodeInTemplate.Imports {
+	// Delete unused imports. Range over a copy: DeleteNamedImport shifts the remaining imports down in place,
+	// so ranging over the live slice skips the import that follows each deleted one.
+	for _, imp := range slices.Clone(firstGoNodeInTemplate.Imports) {
 		if !containsImport(updatedImports, imp) {
 			name, path, err := getImportDetails(imp)
 			if err != nil {
